@@ -131,6 +131,9 @@ func (c *Ctx) seq03(all []string) {
 						w2 := runOp("weld", args+meshStr(m), false, func() []modeling.Mesh { return one(m.WeldByFloat3Attribute(modeling.PositionAttribute, dec)) })
 						c.emitOp03(w2, m)
 						c.Note("weld-after-unweld")
+						if w1.status == "" && w2.status == "" {
+							c.Emit("c03.holds.weld_unweld", fmt.Sprintf("%s %d %s %s", modeling.PositionAttribute, dec, meshStr(w2.out[0]), meshStr(w1.out[0])), "true")
+						}
 					}
 				}
 			}
